@@ -32,7 +32,7 @@ inductive PC where
   | wDone                      -- holds W: load body done, deferred Unlock pending
   | wantR2                     -- did Unlock, waits for RLock (holds nothing): unload may run here
   | recheck                    -- holds R: `if returnErr == nil && r.reader == nil`
-  | using (g : Nat)            -- holds R: inside r.reader.X() on generation g
+  | inUse (g : Nat)            -- holds R: inside r.reader.X() on generation g
   | consuming (g : Nat)        -- holds nothing: the caller reads an answer that points into generation g
   | uW                         -- unloader holds W
   | uDone                      -- unloader holds W, body done
@@ -40,7 +40,7 @@ inductive PC where
   deriving Repr, DecidableEq
 
 def holdsR : PC → Bool
-  | .rl1 | .fast | .recheck | .using _ | .pR => true
+  | .rl1 | .fast | .recheck | .inUse _ | .pR => true
   | _ => false
 
 def holdsW : PC → Bool
@@ -106,8 +106,8 @@ def step (recheckNil alias : Bool) (s : State) (i : Nat) : State :=
     | .reader, .fast =>
       match s.reader with
       | none => goto .idle { s with bad := true }
-      | some g => if s.closed.contains g then goto .idle { s with bad := true } else goto (.using g) s
-    | .reader, .using g =>
+      | some g => if s.closed.contains g then goto .idle { s with bad := true } else goto (.inUse g) s
+    | .reader, .inUse g =>
       if s.closed.contains g || s.reader != some g then goto .idle { s with bad := true }
       else if alias then goto (.consuming g) (emit (.ok g) s)
       else goto .idle (emit (.ok g) s)
